@@ -155,6 +155,19 @@ class Images:
             out.setdefault(str(wf), []).append(app.client_data_store.deserialize(v))
         return out
 
+    def subs(self, app: Any, log: list) -> dict:
+        """Every sub-task invocation handed to a body, seen at route_call, or known to the orchestrator."""
+        from pynenc.identifiers.task_id import TaskId
+
+        seen = {v for r in log for k, v in r["values"] if k.startswith("exec")}
+        seen |= {l["inv"] for l in self.launches if l["task"] == "wf_sub"}
+        known = {str(i) for i in app.orchestrator.get_task_invocation_ids(TaskId(T.__name__, "wf_sub"))}
+        out = {i: self.invocation_info(app, i) for i in sorted(seen | known)}
+        for i, info in out.items():
+            if info is not None:
+                info["in_orchestrator"] = i in known
+        return out
+
     def invocation_info(self, app: Any, inv_id: str) -> dict | None:
         try:
             inv = app.state_backend.get_invocation(inv_id)
@@ -252,9 +265,7 @@ def run_history(backend: str, image: str, prog: tuple, history: str, die_at: int
         "images": im.n_images,
         "expected_runs": 3 if fail_until else (2 if dj >= 0 else 1),
     }
-    seen = {v for r in obs["log"] for k, v in r["values"] if k.startswith("exec")}
-    seen |= {l["inv"] for l in im.launches if l["task"] == "wf_sub"}
-    obs["subs"] = {i: im.invocation_info(reader, i) for i in sorted(seen)}
+    obs["subs"] = im.subs(reader, obs["log"])
     return obs
 
 
@@ -305,11 +316,16 @@ def judge(obs: dict, prog: tuple) -> tuple[list[tuple], int]:
             if not reached:
                 continue
             n = sum(1 for l in launched_by.values() if l["by"] == i and l["args"].get("x") == arg)
-            if n > 1:
-                out.append(("sub-task-launched-more-than-once", "exec", {"workflow": i, "arg": arg, "launches": n}))
-            elif n == 0:
-                out.append(("sub-task-not-launched-for-workflow", "exec", {"workflow": i, "arg": arg,
-                                                                          "handed_back": reached[0]}))
+            # the same count read back: sub-task invocations the orchestrator knows for this workflow and call
+            nb = sum(1 for info in obs["subs"].values() if info and info.get("in_orchestrator") and info.get("task") == "wf_sub"
+                     and info.get("workflow") == i and info.get("args", {}).get("x") == arg)
+            if n > 1 or nb > 1:
+                out.append(("sub-task-launched-more-than-once", "exec",
+                            {"workflow": i, "arg": arg, "launches": n, "invocations_in_orchestrator": nb}))
+            elif n == 0 or nb == 0:
+                out.append(("sub-task-not-launched-for-workflow", "exec",
+                            {"workflow": i, "arg": arg, "handed_back": reached[0], "launches": n,
+                             "invocations_in_orchestrator": nb}))
             for v in dict.fromkeys(reached):
                 info = obs["subs"].get(v)
                 if not info or "error" in info:
@@ -451,9 +467,7 @@ class Scn:
         obs = {"ids": ids, "log": [dict(r) for r in T.LOG], "events": events, "launches": list(im.launches),
                "store": im.store(client), "images": im.n_images,
                "status": {i: client.orchestrator.get_invocation_status(i).name for i in ids}}
-        seen = {v for r in obs["log"] for k, v in r["values"] if k.startswith("exec")}
-        seen |= {l["inv"] for l in im.launches if l["task"] == "wf_sub"}
-        obs["subs"] = {i: im.invocation_info(client, i) for i in sorted(seen)}
+        obs["subs"] = im.subs(client, obs["log"])
         ex.obs = obs
         return ex
 
